@@ -241,4 +241,7 @@ def main():
 
 
 if __name__ == "__main__":
-    sys.exit(main())
+    # run as module `py2coq` so that targets.py / algos.py / steps.py share the same Reject class
+    sys.path.insert(0, os.path.dirname(os.path.abspath(__file__)))
+    import py2coq
+    sys.exit(py2coq.main())
